@@ -100,6 +100,12 @@ def fitted_case(draw, classes, max_features=3, dev_modes=None, quant_pools=None,
             if f.get("flavour") in ("ints", "floats", "mixed", "flags", "bools"):
                 f["values"] = [f"v{n}" for n, _ in enumerate(f["values"])]
                 f["flavour"] = "str"
+    if cls in ("OrdinalDiscretizer",):
+        # used alone it expects the column to hold the ranked values themselves (strings)
+        for f in case["features"]:
+            if f["kind"] == "ordinal" and f.get("flavour") == "ints":
+                f["values"] = list(f["ranking"])
+                f["flavour"] = "str"
     if is_carver:
         cfg = carver_config(draw, case["target"]["kind"])
     else:
